@@ -105,10 +105,18 @@ func TestC07Runs(t *testing.T) {
 		straddle := mode == "file" || r.Chance(30)
 		var liveMu sync.Mutex
 		live := map[*f1testing.T]bool{}
-		scenario := func(*f1testing.T) f1testing.RunFn {
+		// something marks the SCENARIO's handle (the one setup got) while iterations are in flight:
+		// that is nobody's iteration outcome
+		markScenario := i%4 == 3
+		scenario := func(scT *f1testing.T) f1testing.RunFn {
 			return func(t *f1testing.T) {
 				if t.Failed() {
 					dirty.Add(1)
+				}
+				if markScenario {
+					if n, _ := strconv.ParseUint(t.Iteration, 10, 64); n%7 == 3 {
+						scT.Errorf("scenario-level error reported during iteration %d", n)
+					}
 				}
 				liveMu.Lock()
 				if live[t] {
@@ -165,6 +173,9 @@ func TestC07Runs(t *testing.T) {
 		}
 		if shared.Load() > 0 {
 			o.Fail("shared-handle", "an iteration was started on a T that another iteration was still running on ("+strconv.FormatInt(shared.Load(), 10)+" times, mode "+mode+", bodies outliving their stage)")
+		}
+		if markScenario {
+			o.Count("scenario-handle", "marked failed during the run")
 		}
 		if straddle {
 			o.Count("bodies", "outliving their tick/stage")
